@@ -253,7 +253,8 @@ func wBoot(cfg wConfig) *wWorld {
 
 	for i := 0; i < cfg.Users; i++ {
 		u := &types.User{}
-		u.Access.Auth = types.ModeCAuth
+		// the defaults replyCreateUser assigns to a new account
+		u.Access.Auth = types.ModeCP2P
 		u.Access.Anon = types.ModeNone
 		u.Public = map[string]any{"fn": fmt.Sprintf("user%d", i)}
 		if _, err := store.Users.Create(u, nil); err != nil {
